@@ -144,8 +144,14 @@ def perfect_op(x: Pbox, y: Pbox, op=operator.add):
     note:
         defined for addition and multiplication. Different for subtraction and division.
     """
-    nleft = op(x.left, y.left)
-    nright = op(x.right, y.right)
+    # bounds of the step-wise interval combination (all four endpoint pairings,
+    # so that operands of any sign are handled)
+    c1 = op(x.left, y.left)
+    c2 = op(x.left, y.right)
+    c3 = op(x.right, y.left)
+    c4 = op(x.right, y.right)
+    nleft = np.minimum.reduce([c1, c2, c3, c4])
+    nright = np.maximum.reduce([c1, c2, c3, c4])
 
     nleft.sort()
     nright.sort()
@@ -158,8 +164,14 @@ def opposite_op(x: Pbox, y: Pbox, op=operator.add):
     note:
         defined for addition and multiplication. Different for subtraction and division.
     """
-    nleft = op(x.left, np.flip(y.left))
-    nright = op(x.right, np.flip(y.right))
+    # step k of x meets step n-1-k of y; bounds over all four endpoint pairings
+    yl, yr = np.flip(y.left), np.flip(y.right)
+    c1 = op(x.left, yl)
+    c2 = op(x.left, yr)
+    c3 = op(x.right, yl)
+    c4 = op(x.right, yr)
+    nleft = np.minimum.reduce([c1, c2, c3, c4])
+    nright = np.maximum.reduce([c1, c2, c3, c4])
     nleft.sort()
     nright.sort()
     return nleft, nright
